@@ -271,6 +271,32 @@ impl<'a> FnTr<'a> {
                             return Ok(Seq { stmts: st, tail: seq.tail });
                         }
                     }
+                    // builder N: `let PAT = match e { P1 => v, P2 => return r, .. };` — the arms that yield a value
+                    // are continued by the rest of the block, the others leave the function
+                    if init.diverge.is_none() && !self.muts.is_empty() {
+                        if let Expr::Match(m) = &*init.expr {
+                            if contains_return(&init.expr) {
+                                let pat = &l.pat;
+                                let rest = &stmts[i + 1..];
+                                let mut m2 = m.clone();
+                                for arm in m2.arms.iter_mut() {
+                                    let leaves = matches!(&*arm.body, Expr::Return(_)) || matches!(&*arm.body, Expr::Block(b) if block_returns(&b.block));
+                                    if !leaves {
+                                        if contains_return(&arm.body) {
+                                            return Err("let = match: an arm both yields a value and returns".into());
+                                        }
+                                        let body = &arm.body;
+                                        let nb: Expr = parse_quote!({ let #pat = #body; #(#rest)* });
+                                        arm.body = Box::new(nb);
+                                    }
+                                }
+                                let stmt = Stmt::Expr(Expr::Match(m2), Some(Default::default()));
+                                let seq = self.block_tail(&[stmt], env)?;
+                                st.extend(seq.stmts);
+                                return Ok(Seq { stmts: st, tail: seq.tail });
+                            }
+                        }
+                    }
                     if let Some((_, else_blk)) = &init.diverge {
                         // let PAT = e else { diverge };
                         let (sc, sty) = self.ex(&init.expr, env, &mut st, None)?;
